@@ -147,3 +147,10 @@ package renamer
 //@   loop 1 invariant forall c *ast.SlotCounts, k int :: !fresh(c) && 0 <= k && k < 4 ==> c[k] == old(c[k])
 //@   loop 2 invariant forall c *ast.SlotCounts, k int :: !fresh(c) && 0 <= k && k < 4 ==> c[k] == old(c[k])
 //@   loop 3 invariant forall c *ast.SlotCounts, k int :: !fresh(c) && 0 <= k && k < 4 ==> c[k] == old(c[k])
+
+// C08 / C20: AssignNamesByScope names the nested scopes of every file on its own goroutine (started from a range over a
+// map) and relies on "the parallel part only looks at symbols defined in this file". A member of the module scope of a
+// CommonJS-wrapped file can be a bound import, i.e. LINKED to a top-level symbol of another file; naming it from here
+// writes r.names[otherFile] unsynchronised, and which file's scope gets the name recorded depends on which goroutine
+// wins. A scope member is handed to assignName only after its link target has been found to be in this file.
+//@ guarded parallel-renaming-stays-in-its-own-file C08 C20: func=(*NumberRenamer).assignNamesInScope ; in=renamer ; site=call assignName ; only-under=true:phi:rangeindex+1<call len(*sorted) ; scenario=cjs_nested_rename_race ; require=false:call FollowSymbols(*).SourceIndex!=sourceIndex
